@@ -140,6 +140,14 @@ Theorem wire_histories_eq_spec : forall (auth_ok : bytes -> bool),
   wire_history auth_ok fixed c st reqs = map Ok (wire_spec ops st reqs).
 Proof. exact wire_history_spec. Qed.
 
+(** ... in particular with the [http] crate's authority parser as transcribed (and validated by the differential
+    run) for C07 — the function the executable model runs: no hypothesis about the parser is left. *)
+Theorem wire_histories_eq_spec_http : forall (ops : list op) (c : collection), build ops = Ok c ->
+  forall (reqs : list wreq) (st : nat -> hstate),
+  Forall (fun r => wf_wreq r /\ tls_refused ops r = false) reqs ->
+  wire_history auth_ok_http fixed c st reqs = map Ok (wire_spec ops st reqs).
+Proof. exact wire_history_spec_http. Qed.
+
 (** The SNI of the connection decides: with an SNI, Host header and [:authority] do not matter. *)
 Theorem sni_decides : forall (ops : list op) (r : wreq) (s : bytes),
   w_tls r = true -> w_sni r = Some s -> wire_route ops r = reference_general ops (Some s) None.
@@ -322,11 +330,11 @@ Proof. vm_compute. reflexivity. Qed.
 Example ex_wire_hypotheses :
   Forall (fun r => wf_wreq r /\ tls_refused ex_ops_nodefault r = false)
     [get1 TR_TLS1 (Some (B "b.test")) [B "a.test"] None; get1 TR_H2 (Some (B "a.test")) [] (Some (B "b.test"))]
-  /\ (forall h, auth_ok_approx h = true -> is_text h).
+  /\ (forall h, auth_ok_http h = true -> is_text h).
 Proof.
   split.
   - repeat constructor; try (vm_compute; reflexivity); intros a Ht Ha; inversion Ha; subst; vm_compute; reflexivity.
-  - apply auth_ok_approx_text.
+  - apply auth_ok_http_text.
 Qed.
 (** two hosts with the same counting handler on the same path: each counts for itself; the filtered clear
     empties only a.test's cache, [clear_page] only b.test's *)
